@@ -43,6 +43,10 @@ SOURCE_OBLIGATIONS = [
     "JanetModel.Props.C06.no_lost_wakeup",
     "JanetModel.Props.C06.terminates_when_matchable",
     "JanetModel.Props.C06.suspends_registered_exactly",
+    "JanetModel.Props.C06.runG_is_run",
+    "JanetModel.Props.C06.registration_kept",
+    "JanetModel.Props.C06.no_suspended_matchable",
+    "JanetModel.Props.C06.terminates_when_matchable_full",
     "JanetModel.Props.C06.noSelfMatch_needed",
     "JanetModel.Props.C06.current_good",
     "JanetModel.Props.C06.no_lost_wakeup_partial",
